@@ -55,7 +55,13 @@ func (P) Gen(r *core.Rand, tier string, emit func([]string)) {
 		// JSON forms: the bodies of this case and a few drawn byte strings
 		for k, m := 0, r.Range(1, 3); k < m; k++ {
 			var text []byte
-			if r.Bool() && len(specs) > 0 {
+			if r.Chance(1, 3) {
+				// longer than any prefix a classifier might sniff (512 = http.DetectContentType, 4096,
+				// 8192 = buffer sizes), invalid UTF-8 only at the very end
+				n := []int{500, 511, 512, 513, 520, 1024, 1500, 4095, 4096, 4097, 4200, 8192, 8200, 9000}[r.Intn(14)]
+				text = msggen.Payload(r, "latebad", n)
+				core.Count("json:latebad")
+			} else if r.Bool() && len(specs) > 0 {
 				text = specs[r.Intn(len(specs))].Encoded()
 				if len(text) > 4000 {
 					text = text[:4000]
